@@ -1,6 +1,8 @@
 package main
 
 import (
+	. "vh/lib"
+
 	"github.com/cnotch/ipchub/provider/route"
 	"github.com/cnotch/ipchub/utils"
 )
@@ -8,7 +10,7 @@ import (
 // memory provider so every case starts from an empty table
 type c17mem struct{}
 
-func (c17mem) LoadAll() ([]*route.Route, error)                            { return nil, nil }
+func (c17mem) LoadAll() ([]*route.Route, error)                               { return nil, nil }
 func (c17mem) Flush(full []*route.Route, saves, removes []*route.Route) error { return nil }
 
 func encRoute(r *route.Route) Val { return L(S(r.Pattern), S(r.URL), Bo(r.KeepAlive)) }
@@ -25,6 +27,10 @@ func c17Match(path string) (out Val) {
 	}
 	return L(I(1), L(I(1), encRoute(r)))
 }
+
+var commands = map[string]func(Val) Val{}
+
+func main() { Main(commands) }
 
 func init() {
 	commands["C17"] = func(c Val) Val {
